@@ -156,9 +156,13 @@ def model_specs(
             # a reading named like its sensor's generated struct (name.title()) would collide with the constructor
             rnames = [r + "_r" if r == key.title() else r for r in draw(N.ident_lists(m))]
             if sensors and draw(st.sampled_from([False, False, False, True])):
-                # two sensors may name a reading alike (gps.x / odom.x): whatever is keyed by reading name alone collides
+                # two sensors may name a reading alike (gps.x / odom.x): whatever is keyed by reading name alone collides;
+                # a sensor of the same size takes over the WHOLE list of names (whatever is keyed by the list collides)
+                same_size = sorted(k_ for k_, rs_ in sensors.items() if len(rs_) == m and key.title() not in rs_)
                 other = draw(st.sampled_from(sorted(r_ for rs_ in sensors.values() for r_ in rs_)))
-                if other not in rnames and other != key.title():
+                if same_size and draw(st.booleans()):
+                    rnames = list(sensors[draw(st.sampled_from(same_size))])
+                elif other not in rnames and other != key.title():
                     rnames[0] = other
             ssyms = state + calib
             # SensorModel.__init__ evaluates every sensor at the all-zero state ("pre-flight"), so an accepted
